@@ -66,6 +66,9 @@ void vk_other(void);             /* harness: one whole API call of the other pro
 void vk_reap(int proc);          /* kernel clean-up of a dead process (called by the crash switch)  */
 void vk_kill(int proc);          /* SIGKILL now (between two API calls); the crash switch calls it too */
 
+int  vk_setup_sem(int slot, int value);      /* leftover semaphore linked under the name, no open handle; returns the object */
+int  vk_setup_shm(int slot, long size);      /* leftover segment linked under the name, no mapping; returns the object */
+
 /* ---- observation (read by the harness) ---- */
 int  vk_slot(const char *name);              /* name -> slot */
 int  vk_sem_linked(int slot);                /* semaphore object linked under the name, -1 if none */
